@@ -305,6 +305,8 @@ class Python311InstrumentationInstructionsGenerator(
                 # We need to copy the second value from the stack because
                 # it will be placed on the first position in the stack
                 return (cf.ArtificialInstr("COPY", 2, lineno=lineno),)
+            case InstrumentationSetupAction.COPY_THIRD:
+                return (cf.ArtificialInstr("COPY", 3, lineno=lineno),)
             case InstrumentationSetupAction.COPY_SECOND_SHIFT_DOWN_TWO:
                 return (
                     cf.ArtificialInstr("COPY", 2, lineno=lineno),
@@ -398,6 +400,7 @@ class Python311InstrumentationInstructionsGenerator(
             case (
                 InstrumentationSetupAction.COPY_FIRST_SHIFT_DOWN_TWO
                 | InstrumentationSetupAction.COPY_SECOND
+                | InstrumentationSetupAction.COPY_THIRD
                 | InstrumentationSetupAction.COPY_SECOND_SHIFT_DOWN_TWO
                 | InstrumentationSetupAction.COPY_SECOND_SHIFT_DOWN_THREE
                 | InstrumentationSetupAction.COPY_THIRD_SHIFT_DOWN_THREE
